@@ -227,7 +227,7 @@ class Program:
         self.gp += 1
 
     # ---------------------------------------------------------------- request construction
-    def pick_form(self, v, st, cnt, sd, family):
+    def pick_form(self, v, st, cnt, sd, family, allow_varn=True):
         """API form for a request; family 'n' = varn, 'a' = var1/vara/vars (one collective call must use
         one family on all ranks: put_varn_all and put_vara_all perform different collective sequences)"""
         rng = self.rng
@@ -237,11 +237,11 @@ class Program:
         opts = ['vars', 'vars'] if need_stride else ['vara', 'vara', 'vars']
         if not need_stride and v.nd > 0 and all(c == 1 for c in cnt):
             opts.append('var1')
-        if family is None and not need_stride:
+        if family is None and not need_stride and allow_varn:
             opts += ['varn']
         return rng.choice(opts)
 
-    def make_put(self, q, v, zero_ok=False, family=None):
+    def make_put(self, q, v, zero_ok=False, family=None, allow_varn=True):
         """a put request of rank q on variable v obeying the element rules; returns
         (acc string, parsed, keys, vals, recs) or None"""
         rng = self.rng
@@ -252,7 +252,7 @@ class Program:
                 form = 'var'
                 st, cnt, sd = [0] * v.nd, list(v.shape), [1] * v.nd
             else:
-                form = self.pick_form(v, st, cnt, sd, family)
+                form = self.pick_form(v, st, cnt, sd, family, allow_varn)
                 if form is None:
                     continue
             acc = access_tokens(rng, v, st, cnt, sd, tok, k, flex, form=form)
@@ -284,7 +284,7 @@ class Program:
             return '%d varn t%d c 1 %d %s %s' % (v.vid, v.xtype, v.nd, fmt_list(st), fmt_list(cnt))
         return '%d vara t%d c %d %s %s' % (v.vid, v.xtype if v.xtype != 2 else 2, v.nd, fmt_list(st), fmt_list(cnt))
 
-    def make_get(self, q, v, family=None):
+    def make_get(self, q, v, family=None, allow_varn=True):
         rng = self.rng
         readable = [k for k in self.val if k[0] == v.vid and self.can_read(q, k)]
         if not readable:
@@ -293,7 +293,7 @@ class Program:
         for _ in range(10):
             st, cnt, sd = rand_request(rng, v, maxrec, False, strided=(False if family == 'n' else None))
             tok, k, flex = memtype_for(rng, v)
-            form = self.pick_form(v, st, cnt, sd, family)
+            form = self.pick_form(v, st, cnt, sd, family, allow_varn)
             if form is None:
                 continue
             acc = access_tokens(rng, v, st, cnt, sd, tok, k, flex, form=form)
@@ -325,7 +325,7 @@ class Program:
         """collective mode: every rank calls put_<form>_all on the same variable"""
         rng = self.rng
         v = rng.choice(self.s.vars)
-        family = 'n' if rng.chance(1, 5) else 'a'
+        family = 'n' if (rng.chance(1, 5) and not any(self.slots)) else 'a'
         reqs = []
         tmp_taken = set()
         for q in range(self.np):
@@ -408,7 +408,7 @@ class Program:
     def op_put_indep(self):
         rng = self.rng
         q = rng.below(self.np); v = rng.choice(self.s.vars)
-        r = self.make_put(q, v)
+        r = self.make_put(q, v, allow_varn=not self.slots[q])
         if not r:
             return False
         self.emit_put_indep(q, v, r)
@@ -474,10 +474,10 @@ class Program:
         """get of each rank in `ranks` (collective group when not independent)"""
         rng = self.rng
         v = v or rng.choice(self.s.vars)
-        family = None if self.indep else ('n' if rng.chance(1, 5) else 'a')
+        family = None if self.indep else ('n' if (rng.chance(1, 5) and not any(self.slots)) else 'a')
         per = {}
         for q in ranks:
-            g = self.make_get(q, v, family)
+            g = self.make_get(q, v, family, allow_varn=not self.slots[q])
             if g:
                 per[q] = g
         if not per:
@@ -554,7 +554,9 @@ class Program:
             rng.shuffle(sel_p); sel_p = sel_p[:rng.range(0, len(sel_p))]
         sel_g = list(gets) if (force_all or rng.chance(2, 3)) else []
         items = [('p', s) for s in sel_p] + [('g', s) for s in sel_g]
-        if rng.chance(1, 6):
+        if rng.chance(1, 6) and len(sel_p) == len(puts) and len(sel_g) == len(gets):
+            # (default driver, known F3: a list as long as the number of pending requests is taken for "all",
+            # so a NULL id next to a strict subset would complete an unnamed request)
             items.append(('n', None))
         rng.shuffle(items)
         toks = ' '.join('N' if k == 'n' else str(s.slot) for k, s in items)
